@@ -375,7 +375,7 @@ func runHandshakes(c *hk.Ctx) {
 	skipped := 0
 	defer func() { c.SetExtra("handshake_scripts_skipped_after_confirmed_failures", skipped) }()
 	for _, sc := range hsScens(c) {
-		if recurred[sc.T] >= 2 {
+		if recurred[sc.T] >= 2 || outOfTime() {
 			skipped++
 			continue
 		}
